@@ -230,6 +230,11 @@ Qed.
 (* ---------------------------------------------------------------- sendToConnection for the live packet *)
 Definition cfg0 : cfg := mkCfg 0 0 [].
 
+(* from here on: any assembler options c, for a stream that never calls KeepFrom *)
+Section Cfg.
+Variable c : cfg.
+Hypothesis Hk : c_keep c = [].
+
 Lemma send_inorder : forall S i w0 hi h used pos n st en ts sid nc,
   h_saved h = [] -> h_next h = sq i pos ->
   qok S i (Z.max (pos + n) (pos + 1)) hi (h_queue h) ->
@@ -237,7 +242,7 @@ Lemma send_inorder : forall S i w0 hi h used pos n st en ts sid nc,
   exists e' tk q1,
     pos + n <= e' /\ e' <= zlen S /\ qok S i (e' + 1) hi q1 /\ (tk = [] -> e' = pos + n) /\
     (h_queue h = [] -> tk = []) /\
-    send fixedv cfg0 h used (CLive (mkLive (sub S pos n) (sq i pos) st en ts)) sid nc =
+    send fixedv c h used (CLive (mkLive (sub S pos n) (sq i pos) st en ts)) sid nc =
     mkSres (mkHalf (h_pages h - zlen tk) [] q1 (h_next h) (h_seen h) (h_closed h))
            (used - 0 - zlen tk + 0) (sq i e')
            (last_end (CLive (mkLive (sub S pos n) (sq i pos) st en ts) :: map CPage tk))
@@ -258,7 +263,7 @@ Proof.
   rewrite cbytes_pages, H3.
   rewrite sub_app by lia. replace (n + (e' - (pos + n))) with (e' - pos) by lia.
   rewrite zlen_sub by lia.
-  unfold keep_choice, cfg0. cbn [c_keep].
+  unfold keep_choice. rewrite Hk.
   replace (-1 <? 0) with true by reflexivity.
   rewrite firstn_all, skipn_all. cbn [keep_conv].
   replace (count_pages (CLive (mkLive (sub S pos n) (sq i pos) st en ts) :: map CPage tk)) with (zlen tk)
@@ -273,7 +278,7 @@ Definition HIS : Z := HALFW - 1.      (* window [0, 2^30 - 1]: streams shorter t
 
 Record inv (S : list Z) (i pos : Z) (st : st) : Prop := mkInv {
   i_exists : s_exists st = true;
-  i_cfg : s_cfg st = cfg0;
+  i_cfg : s_cfg st = c;
   i_rev : s_rev_closed st = false;
   i_saved : h_saved (s_half st) = [];
   i_open : h_closed (s_half st) = false ->
@@ -316,14 +321,15 @@ Proof. unfold HIS, HI. lia. Qed.
 
 (* a segment beyond the delivery point is queued: no event, the invariant stays *)
 Lemma assemble_queue : forall S i pos st o n fin rst ts,
+  c_mpc c <= 0 /\ c_mt c <= 0 ->
   zlen S < HIS -> inv S i pos st -> h_closed (s_half st) = false ->
   pos < o -> 0 <= n -> o + n <= zlen S ->
   exists st' ev, assemble fixedv st (mkSeg (sq i o) false fin rst false ts (sub S o n)) = (st', ev, false) /\
     s_rev_seen st' = s_rev_seen st /\ inv S i pos st' /\ ev_new ev = [] /\ ev_clean ev.
 Proof.
-  intros S i pos st o n fin rst ts HS Hinv Hopen Ho Hn HoS.
+  intros S i pos st o n fin rst ts Hnl HS Hinv Hopen Ho Hn HoS.
   destruct Hinv as [Hex Hcfg Hrev Hsv Hop Hpos]. destruct (Hop Hopen) as (Hnx & Hq).
-  destruct st as [c ex h rc rs used sid nc]. cbn [s_exists s_cfg s_rev_closed s_half] in *. subst c ex rc.
+  destruct st as [c0 ex h rc rs used sid nc]. cbn [s_exists s_cfg s_rev_closed s_half] in *. subst c0 ex rc.
   destruct h as [pg_ sv q nx seen cl]. cbn [h_saved h_closed h_next h_queue] in *. subst sv cl nx.
   unfold assemble. cbn [s_exists s_half s_cfg s_used s_sid s_ncalls s_rev_closed s_rev_seen
                         h_pages h_saved h_queue h_next h_seen h_closed
@@ -337,7 +343,7 @@ Proof.
   destruct (check_overlap_queue S i 0 (pos + 1) HIS q o n ts (rst || fin)) as (Hp & Hq');
     try lia; try assumption; try apply HIS_HI.
   fold r in Hp, Hq'. rewrite Hp.
-  unfold limit_hit, cfg0. cbn [c_mpc c_mt]. replace (0 <? 0) with false by reflexivity. cbn [andb orb].
+  unfold limit_hit. replace (0 <? c_mpc c) with false by lia. replace (0 <? c_mt c) with false by lia. cbn [andb orb].
   eexists. eexists. split; [reflexivity|]. split; [reflexivity|]. split; [|split].
   - constructor; cbn [s_exists s_cfg s_rev_closed s_half h_saved h_closed h_next h_queue]; try reflexivity; try lia.
     intros _. split; [reflexivity|assumption].
@@ -356,10 +362,10 @@ Proof.
     replace (n - n) with 0 by lia. replace (Z.max pos (o + n) - pos) with 0 by lia. reflexivity.
 Qed.
 
-Lemma ev_new_if_tag : forall (c : bool) t, ev_new (if c then [ETag t] else []) = [].
-Proof. intros. destruct c; reflexivity. Qed.
-Lemma ev_clean_if_tag : forall (c : bool) t, ev_clean (if c then [ETag t] else []).
-Proof. intros. destruct c; [constructor; [exact I|constructor]|constructor]. Qed.
+Lemma ev_new_if_tag : forall (b : bool) t, ev_new (if b then [ETag t] else []) = [].
+Proof. intros. destruct b; reflexivity. Qed.
+Lemma ev_clean_if_tag : forall (b : bool) t, ev_clean (if b then [ETag t] else []).
+Proof. intros. destruct b; [constructor; [exact I|constructor]|constructor]. Qed.
 
 (* a segment at or before the delivery point: its new suffix and whatever became contiguous
    are handed over in one ScatterGather with skip 0 *)
@@ -373,7 +379,7 @@ Lemma assemble_inorder : forall S i pos st sqv (syn : bool) o n fin rst ts,
 Proof.
   intros S i pos st sqv syn o n fin rst ts HS Hinv Hopen Hseq Ho Hop Hn HoS Hfin.
   destruct Hinv as [Hex Hcfg Hrev Hsv Hopn Hpos]. destruct (Hopn Hopen) as (Hnx & Hq).
-  destruct st as [c ex h rc rs used sid nc]. cbn [s_exists s_cfg s_rev_closed s_half] in *. subst c ex rc.
+  destruct st as [c0 ex h rc rs used sid nc]. cbn [s_exists s_cfg s_rev_closed s_half] in *. subst c0 ex rc.
   destruct h as [pg_ sv q nx seen cl]. cbn [h_saved h_closed h_next h_queue] in *. subst sv cl nx.
   unfold assemble. cbn [s_exists s_half s_cfg s_used s_sid s_ncalls s_rev_closed s_rev_seen
                         h_pages h_saved h_queue h_next h_seen h_closed
@@ -443,7 +449,7 @@ Lemma assemble_closed : forall S i pos st g,
 Proof.
   intros S i pos st g Hinv Hcl.
   destruct Hinv as [Hex Hcfg Hrev Hsv Hopn Hpos].
-  destruct st as [c ex h rc rs used sid nc]. cbn [s_exists s_cfg s_rev_closed s_half] in *. subst c ex rc.
+  destruct st as [c0 ex h rc rs used sid nc]. cbn [s_exists s_cfg s_rev_closed s_half] in *. subst c0 ex rc.
   destruct h as [pg_ sv q nx seen cl]. cbn [h_saved h_closed h_next h_queue] in *. subst sv cl.
   unfold assemble. cbn [s_exists s_half h_pages h_saved h_queue h_next h_seen h_closed].
   eexists. split; [reflexivity|]. split; [reflexivity|].
@@ -461,11 +467,12 @@ Proof. intros. unfold sadd, sq, M32. lia. Qed.
    SYN (if any) is handed over with Start *)
 Lemma assemble_first_syn : forall S i n ts,
   zlen S < HIS -> 0 <= n <= zlen S ->
-  exists st' ev, assemble fixedv init (mkSeg (i mod M32) true false false false ts (sub S 0 n)) = (st', ev, false) /\
+  exists st' ev, assemble fixedv (mkSt c false (new_half 0) false 0 0 0 0)
+                          (mkSeg (i mod M32) true false false false ts (sub S 0 n)) = (st', ev, false) /\
     s_rev_seen st' = ts /\ inv S i n st' /\ ev_new ev = sub S 0 n /\ ev_clean ev.
 Proof.
   intros S i n ts HS Hn.
-  unfold assemble, init. cbn [s_exists s_half s_cfg s_used s_sid s_ncalls s_rev_closed s_rev_seen new_half
+  unfold assemble. cbn [s_exists s_half s_cfg s_used s_sid s_ncalls s_rev_closed s_rev_seen new_half
                         h_pages h_saved h_queue h_next h_seen h_closed
                         g_seq g_syn g_fin g_rst g_force g_ts g_bytes].
   replace (INVALID =? INVALID) with true by reflexivity. cbn [andb orb].
@@ -483,7 +490,7 @@ Proof.
     as (e' & tk & q1 & He1 & He2 & Hq1 & Htk & Htk0 & Heq);
     cbn [h_saved h_next h_queue qok]; try reflexivity; try apply HIS_HI.
   all: try (unfold HIS, HALFW in *; lia).
-  change cfg0 with (mkCfg 0 0 []) in Heq. rewrite Heq.
+  rewrite Heq.
   rewrite (Htk0 eq_refl) in *. specialize (Htk eq_refl). subst e'.
   cbn [sr_panic sr_end sr_half sr_used sr_next sr_ev h_pages h_saved h_queue h_next h_seen h_closed
        map last_end rev app cend lend orb].
@@ -501,12 +508,13 @@ Qed.
 Definition seg_hop (h : hop) : bool := match h with HSyn _ _ | HData _ _ _ _ _ => true | _ => false end.
 
 Lemma step_hop : forall S i pos st h,
+  c_mpc c <= 0 /\ c_mt c <= 0 ->
   zlen S < HIS -> inv S i pos st -> seg_hop h = true -> hop_okb S h = true ->
   exists st' ev pos', step fixedv st (op_of S i h) = (st', ev, false) /\
     s_rev_seen st' = s_rev_seen st /\
     pos <= pos' /\ inv S i pos' st' /\ ev_new ev = sub S pos (pos' - pos) /\ ev_clean ev.
 Proof.
-  intros S i pos st h HS Hinv Hseg Hok.
+  intros S i pos st h Hnl HS Hinv Hseg Hok.
   destruct (h_closed (s_half st)) eqn:Hcl.
   - (* closed *)
     destruct h as [| |n ts|o n fin rst ts| |]; try discriminate; cbn [op_of step].
@@ -525,7 +533,7 @@ Proof.
       * apply (assemble_inorder S i pos st (sq i o) false o n fin rst ts); try assumption; try lia;
           try reflexivity.
         intros Hf. subst fin. cbn [negb orb] in Hok. lia.
-      * destruct (assemble_queue S i pos st o n fin rst ts) as (st' & ev & He & Hr & Hi & Hn & Hc); try assumption; try lia.
+      * destruct (assemble_queue S i pos st o n fin rst ts Hnl) as (st' & ev & He & Hr & Hi & Hn & Hc); try assumption; try lia.
         exists st', ev, pos. split; [exact He|]. split; [exact Hr|]. split; [lia|]. split; [exact Hi|].
         split; [rewrite Hn; replace (pos - pos) with 0 by lia; reflexivity|exact Hc].
 Qed.
@@ -542,24 +550,27 @@ Proof.
 Qed.
 
 Lemma run_hops : forall S i hs pos st,
+  c_mpc c <= 0 /\ c_mt c <= 0 ->
   zlen S < HIS -> inv S i pos st -> forallb seg_hop hs = true -> forallb (hop_okb S) hs = true ->
   exists pos', pos <= pos' /\ pos' <= zlen S /\
     let tr := run_trace fixedv st (map (op_of S i) hs) in
     length tr = length hs /\ delivered tr = sub S pos (pos' - pos) /\ Forall (fun x => ev_clean (fst x)) tr.
 Proof.
-  intros S i. induction hs as [|h t IH]; intros pos st HS Hinv Hseg Hok.
+  intros S i. induction hs as [|h t IH]; intros pos st Hnl HS Hinv Hseg Hok.
   - exists pos. pose proof (i_pos _ _ _ _ Hinv). split; [lia|]. split; [lia|]. cbn [map run_trace length].
     split; [reflexivity|]. split; [replace (pos - pos) with 0 by lia; reflexivity|constructor].
   - cbn [forallb] in Hseg, Hok. apply andb_prop in Hseg. apply andb_prop in Hok.
     destruct Hseg as (Hs1 & Hs2). destruct Hok as (Ho1 & Ho2).
-    destruct (step_hop S i pos st h HS Hinv Hs1 Ho1) as (st' & ev & pos1 & He & _ & Hp & Hi & Hn & Hc).
-    destruct (IH pos1 st' HS Hi Hs2 Ho2) as (pos' & Hp1 & Hp2 & Hl & Hd & Hcl).
+    destruct (step_hop S i pos st h Hnl HS Hinv Hs1 Ho1) as (st' & ev & pos1 & He & _ & Hp & Hi & Hn & Hc).
+    destruct (IH pos1 st' Hnl HS Hi Hs2 Ho2) as (pos' & Hp1 & Hp2 & Hl & Hd & Hcl).
     exists pos'. split; [lia|]. split; [lia|]. cbn [map run_trace]. rewrite He.
     cbn [length]. split; [rewrite Hl; reflexivity|]. split.
     + rewrite delivered_cons, Hn, Hd. pose proof (i_pos _ _ _ _ Hinv).
       apply sub_app3; lia.
     + constructor; [exact Hc|exact Hcl].
 Qed.
+
+End Cfg.
 
 (* C09_stream_partial: a connection whose first packet is the SYN, any ISN, any order of
    consistent data segments, duplicates, overlapping retransmissions, repeated SYNs, FIN/RST;
@@ -574,9 +585,9 @@ Theorem stream_partial : forall S i n0 ts0 hs,
   exists pos, n0 <= pos <= zlen S /\ delivered tr = sub S 0 pos /\ Forall (fun x => ev_clean (fst x)) tr.
 Proof.
   intros S i n0 ts0 hs HS Hn0 Hseg Hok tr. subst tr. unfold run_hist. cbn [map op_of run_trace step].
-  destruct (assemble_first_syn S i n0 ts0 HS Hn0) as (st' & ev & He & _ & Hi & Hn & Hc).
-  rewrite He.
-  destruct (run_hops S i hs n0 st' HS Hi Hseg Hok) as (pos' & Hp1 & Hp2 & Hl & Hd & Hcl).
+  destruct (assemble_first_syn cfg0 eq_refl S i n0 ts0 HS Hn0) as (st' & ev & He & _ & Hi & Hn & Hc).
+  change init with (mkSt cfg0 false (new_half 0) false 0 0 0 0). rewrite He.
+  destruct (run_hops cfg0 eq_refl S i hs n0 st' ltac:(cbn; lia) HS Hi Hseg Hok) as (pos' & Hp1 & Hp2 & Hl & Hd & Hcl).
   cbn [length]. split; [rewrite Hl; reflexivity|].
   exists pos'. split; [lia|]. split.
   - rewrite delivered_cons, Hn, Hd.
